@@ -6,8 +6,8 @@
    where binding could fail, an explicit collision is computed instead. *)
 From Coq Require Import ZArith List Bool.
 From VBase Require Import MachInt.
-From VModel Require Import Merkle.
-From VProofs Require Import MerkleBase MerkleSingle MerkleIdx MerkleBatch MerkleTotal MerkleBind MerkleRound MerkleFrom MerkleExamples.
+From VModel Require Import Merkle MerkleStrict.
+From VProofs Require Import MerkleBase MerkleSingle MerkleIdx MerkleBatch MerkleTotal MerkleBind MerkleRound MerkleFrom MerkleDead MerkleExamples.
 Import ListNotations.
 Open Scope Z_scope.
 
@@ -216,6 +216,70 @@ Theorem C10_from_into_roundtrip : forall (t : mtree D) (d : nat) indexes,
                   from_paths D d0 paths indexes = Ok p.
 Proof. exact (fun t d indexes WF Hd => from_into_roundtrip D D_eqb D_eqb_spec d0 merge t d WF Hd indexes). Qed.
 
+(* ---------------------------------------------------------------- coverage round: error branches
+   ill_shaped: an opening that violates ANY guard on the position list or on the counts (no positions, more than
+   255, a number of leaves different from the number of positions, a duplicated position, a position >= 2^depth,
+   depth >= 64, a number of node vectors different from the number of distinct sibling pairs) is an ERROR of
+   get_root / verify_batch / into_paths: it is not accepted and it does not panic.  Every proof value, every list
+   of usize positions. *)
+Theorem C10_get_root_ill_shaped : forall (p : bproof D) indexes, 0 <= bp_depth p -> usize_list indexes ->
+  ~ shape_guards D p indexes -> exists e, get_root D merge p indexes = Err e.
+Proof. exact (get_root_ill_shaped D merge). Qed.
+
+Theorem C10_verify_batch_ill_shaped : forall root (p : bproof D) indexes, 0 <= bp_depth p -> usize_list indexes ->
+  ~ shape_guards D p indexes -> exists e, verify_batch D D_eqb merge root indexes p = Err e.
+Proof. exact (verify_batch_ill_shaped D merge D_eqb). Qed.
+
+Theorem C10_into_paths_ill_shaped : forall (p : bproof D) indexes, 0 <= bp_depth p -> usize_list indexes ->
+  ~ shape_guards D p indexes -> exists e, into_paths D merge p indexes = Err e.
+Proof. exact (into_paths_ill_shaped D merge). Qed.
+
+(* shape_unique: the node vectors too.  Two openings of the same positions and depth that get_root (into_paths)
+   lets through have the same number of leaves and node vectors of the same lengths, whatever the digests ... *)
+Theorem C10_get_root_shape_unique : forall (p1 p2 : bproof D) indexes r1 r2, bp_depth p1 = bp_depth p2 ->
+  get_root D merge p1 indexes = Ok r1 -> get_root D merge p2 indexes = Ok r2 ->
+  length (bp_leaves p1) = length (bp_leaves p2) /\ map (@zlen D) (bp_nodes p1) = map (@zlen D) (bp_nodes p2).
+Proof. exact (get_root_shape_unique D merge). Qed.
+
+Theorem C10_into_paths_shape_unique : forall (p1 p2 : bproof D) indexes r1 r2, bp_depth p1 = bp_depth p2 ->
+  into_paths D merge p1 indexes = Ok r1 -> into_paths D merge p2 indexes = Ok r2 ->
+  length (bp_leaves p1) = length (bp_leaves p2) /\ map (@zlen D) (bp_nodes p1) = map (@zlen D) (bp_nodes p2).
+Proof. exact (into_paths_shape_unique D merge). Qed.
+
+(* ... hence an opening of the tree's depth accepted by get_root (against ANY root) has exactly the shape of the
+   honest opening prove_batch builds for that position list: a missing or surplus leaf, node vector or node at any
+   level, a node where the sibling is a queried position, an empty vector where a sibling is needed - all errors
+   (by C10_get_root_total never panics). *)
+Theorem C10_accepted_has_honest_shape : forall leaves t (d : nat) root indexes (p : bproof D) r,
+  mt_new D d0 merge leaves = Ok t -> zlen leaves = 2 ^ Z.of_nat d -> (d <= 62)%nat -> mt_root D t = Ok root ->
+  (forall i, In i indexes -> 0 <= i) -> bp_depth p = Z.of_nat d -> get_root D merge p indexes = Ok r ->
+  exists hp, mt_prove_batch D d0 t indexes = Ok hp /\
+    length (bp_leaves p) = length (bp_leaves hp) /\ map (@zlen D) (bp_nodes p) = map (@zlen D) (bp_nodes hp).
+Proof. exact (accepted_has_honest_shape D D_eqb D_eqb_spec d0 merge). Qed.
+
+(* dead_branches: the fourteen `return Err(MerkleTreeError::InvalidProof)` of proofs.rs at lines 154 160 182 186 215
+   230 (get_root), 310 316 338 342 373 387 (into_paths), 520 528 (get_path) cannot be reached by any input.  The
+   twin model Model/MerkleStrict.v returns an ARBITRARY outcome [dead] at exactly those branches and computes the
+   same function; with dead := Panic and the totality theorems: the branches are never executed. *)
+Theorem C10_dead_branches_get_root : forall (dead : forall A : Type, res A) (p : bproof D) indexes,
+  get_root_s D merge dead p indexes = get_root D merge p indexes.
+Proof. exact (get_root_dead D merge). Qed.
+
+Theorem C10_dead_branches_verify_batch : forall (dead : forall A : Type, res A) root (p : bproof D) indexes,
+  verify_batch_s D D_eqb merge dead root indexes p = verify_batch D D_eqb merge root indexes p.
+Proof. exact (fun dead => verify_batch_dead D merge dead D_eqb). Qed.
+
+Theorem C10_dead_branches_into_paths : forall (dead : forall A : Type, res A) (p : bproof D) indexes,
+  0 <= bp_depth p -> usize_list indexes ->
+  into_paths_s D merge dead p indexes = into_paths D merge p indexes.
+Proof. exact (into_paths_dead D merge). Qed.
+
+(* the last error of get_root (`v.remove(&1).ok_or(InvalidProof)`, line 257) is live only for a depth byte of 0:
+   for depth >= 1 a run that passes all_nodes_consumed has computed node 1 *)
+Theorem C10_root_present : forall (p : bproof D) idx v ptm, 1 <= bp_depth p -> usize_list idx -> idx <> [] ->
+  zlen idx = zlen (bp_leaves p) -> gcore D merge p idx [] = Ok (v, ptm) -> bt_get 1 v <> None.
+Proof. exact (gcore_root D merge). Qed.
+
 End C10.
 
 (* regression: the round trip evaluated in the kernel VM on the free merge (digests = binary terms), trees with
@@ -252,11 +316,23 @@ Print Assumptions C10_batch_binding_two.
 Print Assumptions C10_into_paths_spec.
 Print Assumptions C10_from_paths_of_proves.
 Print Assumptions C10_from_into_roundtrip.
+Print Assumptions C10_get_root_ill_shaped.
+Print Assumptions C10_verify_batch_ill_shaped.
+Print Assumptions C10_into_paths_ill_shaped.
+Print Assumptions C10_get_root_shape_unique.
+Print Assumptions C10_into_paths_shape_unique.
+Print Assumptions C10_accepted_has_honest_shape.
+Print Assumptions C10_dead_branches_get_root.
+Print Assumptions C10_dead_branches_verify_batch.
+Print Assumptions C10_dead_branches_into_paths.
+Print Assumptions C10_root_present.
 
 (* Non-vacuity: concrete instances satisfying the hypotheses of the theorems above (Proofs/MerkleExamples.v):
    ex_new/ex_single_hyps/ex_single_run (single_complete), ex_binding_hyps/ex_binding_deep (single_binding with
    p <> p': the collision branch is inhabited), ex_batch_hyps/ex_batch_run (batch_complete, unsorted positions),
-   ex_surplus_node/ex_surplus_leaf/ex_depth_64/ex_short_path (totality: hostile shapes give Err). *)
+   ex_surplus_node/ex_surplus_leaf/ex_depth_64/ex_short_path (totality: hostile shapes give Err);
+   Proofs/MerkleDead.v: ex_ill_shaped_hyps (each guard violated alone), ex_shape_unique_hyps, ex_strict_runs (the strict twin with
+   dead := Panic on openings aimed at the dead branches), ex_depth0. *)
 Check ex_single_hyps.
 Check ex_binding_hyps.
 Check ex_binding_deep.
@@ -266,3 +342,7 @@ Check ex_depth_64.
 Check ex_batch_binding_hyps.
 Check ex_batch_binding_two_hyps.
 Check ex_into_paths_spec.
+Check ex_ill_shaped_hyps.
+Check ex_shape_unique_hyps.
+Check ex_strict_runs.
+Check ex_depth0.
